@@ -80,11 +80,39 @@ let dump (s : state) : string =
 let err_msg c = match int_of_n c with
   | 1 -> "err:Token invalid." | 2 -> "err:No peers nor nodes" | 3 -> "err:No nodes" | _ -> "err:?"
 
+let opt_str (f : string) : n list option =
+  if f = "~" || f = "!" then None else Some (bytes_of_hex f)
+let opt_show = function None -> "~" | Some l -> hexbytes l
+
+let derr_msg = function
+  | E_no_tid -> "203 No_transaction_ID" | E_tid_long -> "203 Transaction_ID_length_too_long"
+  | E_no_type -> "203 No_message_type" | E_unsupported_type -> "204 Unsupported_message_type"
+  | E_bad_id -> "203 Invalid_`id'_value" | E_id_short -> "203 `id'_value_too_short"
+  | E_own_id -> "203 Send_your_own_ID,_not_mine" | E_unknown_type -> "204 Unknown_message_type."
+  | E_malformed -> "203 Malformed_packet" | E_target_short -> "203 target_string_too_short"
+  | E_no_nodes -> "201 No_nodes" | E_ih_short -> "203 info_hash_too_short"
+  | E_no_peers_nodes -> "201 No_peers_nor_nodes" | E_token -> "203 Token_invalid."
+  | E_unknown_query -> "204 Unknown_query_type."
+
+let show_reply (s : state) (r : reply) : string =
+  match r with
+  | RpNone -> "none"
+  | RpErr (t, e) -> "e t=" ^ opt_show t ^ " " ^ derr_msg e
+  | RpOk (t, tok, nodes, vals) ->
+      "r t=" ^ hexbytes t ^ " id=" ^ hex_of_id s.own ^ " tok=" ^ opt_show tok ^
+      " n=" ^ (match nodes with None -> "~" | Some l -> centries l) ^
+      " v=" ^ (match vals with None -> "~" | Some [] -> "-" | Some v -> String.concat "," (List.map hexbytes v))
+
 let parse_op (tok : string) : string * op =
   let f = Array.of_list (split_on ',' tok) in
   let k = f.(0) in
   let nd i = n_of_string f.(i) in
   let o = match k with
+    | "U" ->
+        let port = if f.(10) = "~" then PAbsent else if f.(10) = "!" then POther else PInt (z_of_string f.(10)) in
+        ODgram (nd 1, nd 2, { m_t = opt_str f.(3); m_y = opt_str f.(4); m_q = opt_str f.(5); m_id = opt_str f.(6);
+                              m_target = opt_str f.(7); m_ih = opt_str f.(8); m_token = opt_str f.(9); m_port = port })
+    | "X" -> OGarbage (nd 1)
     | "T" -> OTick (nd 1)
     | "Q" -> OQueried (id_of_hex f.(1), nd 2, nd 3)
     | "R" -> OReplied (id_of_hex f.(1), nd 2, nd 3)
@@ -111,6 +139,7 @@ let show_res (k : string) (s : state) (r : res) : string =
   | Rnodes l -> "n=" ^ centries l
   | Rpeers (t, v) -> "t=" ^ hexbytes t ^ " v=" ^ (if v = [] then "-" else String.concat "," (List.map hexbytes v))
   | Rpnodes (t, l) -> "t=" ^ hexbytes t ^ " n=" ^ centries l
+  | Rdg r -> show_reply s r
 
 let run_case (line : string) : string =
   match split_ws line with
